@@ -733,6 +733,45 @@ func c09Stress(args []string) error {
 	}
 	var jobs []*job
 	sessions, ops := 0, 0
+	// phase 0, in a process where nothing has been used yet: every goroutine starts ONE small session and evaluates a few
+	// templates in it, then ends. Nothing a goroutine does after its first uses of shared objects synchronises with the
+	// others (no further flow lookups), so an unsynchronised first use is a reported race whatever the timing.
+	for _, g := range groups {
+		if !strings.Contains(g.path, "c09synth") {
+			continue
+		}
+		sa, err := test.LoadSessionAssets(envs.NewBuilder().Build(), g.path)
+		if err != nil {
+			return err
+		}
+		start := make(chan struct{})
+		var wg sync.WaitGroup
+		for i := 0; i < *ngo; i++ {
+			fx := g.fixtures[i%len(g.fixtures)]
+			wg.Add(1)
+			go func() {
+				defer wg.Done()
+				defer func() { recover() }()
+				trig, err := readTrigger(sa, fx.test.Trigger)
+				if err != nil {
+					return
+				}
+				<-start
+				s, _, err := eng.NewSession(sa, trig)
+				if err != nil || s == nil {
+					return
+				}
+				for _, r := range s.Runs() {
+					for _, t := range evalTemplates {
+						r.EvaluateTemplate(t, func(flows.Event) {})
+					}
+				}
+			}()
+		}
+		close(start)
+		wg.Wait()
+		sessions += *ngo
+	}
 	// phase 1: everything concurrent, from a cold process
 	for _, g := range groups {
 		if *only != "" && !strings.Contains(g.path, *only) {
@@ -858,6 +897,7 @@ func synthGroup() (*assetsGroup, func(), error) {
 			act(1, M{"type": "set_contact_field", "field": M{"key": "joined", "name": "Joined"}, "value": "02-01-2020"}),
 			act(2, M{"type": "set_contact_field", "field": M{"key": "age", "name": "Age"}, "value": "33"}),
 			act(3, M{"type": "set_contact_name", "name": "Bobby"}),
+			act(5, M{"type": "call_webhook", "method": "GET", "url": "http://example.com/bare/@trigger.params.kind", "result_name": "hook"}),
 			act(4, M{"type": "send_msg", "text": "@(json(foreach(contact.groups, (g) => g.name))) @fields.joined @(json(trigger.params)) @(count(trigger.params)) @(has_text(\"\")) @(json(object())) @(json(array()))"})},
 			"router": M{"type": "switch", "operand": "@input.text", "wait": M{"type": "msg"}, "default_category_uuid": catUUID(9, 1, 1),
 				"cases":      []M{{"uuid": caseUUID(9, 1, 1), "type": "has_any_word", "arguments": []string{"zzz"}, "category_uuid": catUUID(9, 1, 1)}, {"uuid": caseUUID(9, 1, 2), "type": "has_number_gt", "arguments": []string{"5"}, "category_uuid": catUUID(9, 1, 1)}},
@@ -865,7 +905,7 @@ func synthGroup() (*assetsGroup, func(), error) {
 			"exits": []M{{"uuid": exitUUID(9, 1, 1), "destination_uuid": nodeUUID(9, 2)}}},
 		{"uuid": nodeUUID(9, 2), "actions": []M{
 			{"uuid": actionUUID(9, 2, 1), "type": "set_contact_field", "field": M{"key": "joined", "name": "Joined"}, "value": "03-04-2022"},
-			{"uuid": actionUUID(9, 2, 2), "type": "send_msg", "text": "@(json(foreach(contact.groups, (g) => g.name)))"}}, "exits": exitsFor(9, 2, 0)}}}
+			{"uuid": actionUUID(9, 2, 2), "type": "send_msg", "text": "@(json(foreach(contact.groups, (g) => g.name))) @webhook @webhook.json @(json(legacy_extra)) @trigger.params.vip @(json(trigger.params))"}}, "exits": exitsFor(9, 2, 0)}}}
 	a := M{"flows": []M{flow}, "groups": groups,
 		"fields":   []M{{"uuid": "f1b5aea6-6586-41c7-9020-1a6326cc6571", "key": "joined", "name": "Joined", "type": "datetime"}, {"uuid": "f1b5aea6-6586-41c7-9020-1a6326cc6572", "key": "age", "name": "Age", "type": "number"}},
 		"channels": []M{{"uuid": chanA, "name": "A", "address": "+17036975131", "schemes": []string{"tel"}, "roles": []string{"send", "receive"}, "country": "US"}}}
@@ -884,7 +924,9 @@ func synthGroup() (*assetsGroup, func(), error) {
 		c := contactJSON()
 		c["created_on"] = "2017-06-05T23:30:00Z"
 		c["urns"] = []string{"tel:+12065550001", "tel:+12065550002"}
-		trig := mustJSON(M{"type": "manual", "flow": M{"uuid": flowUUID(9), "name": "Regroup"}, "contact": c, "environment": env, "triggered_on": "2018-07-06T12:00:00Z"})
+		// (the webhook answers with a bare JSON value; after the read-back @webhook is recreated from the saved extra)
+		trig := mustJSON(M{"type": "manual", "flow": M{"uuid": flowUUID(9), "name": "Regroup"}, "contact": c, "environment": env, "triggered_on": "2018-07-06T12:00:00Z",
+			"params": M{"kind": []string{"true", "object", "false"}[i], "vip": true, "no": false}})
 		res := json.RawMessage(resumeJSON("msg", "hello", 1))
 		g.fixtures = append(g.fixtures, &fixture{name: fmt.Sprintf("synth.env%d", i), assetsPath: f.Name(), test: &fixtureTest{Trigger: trig, Resumes: []json.RawMessage{res}}})
 	}
